@@ -26,6 +26,9 @@
    The root object and the head element are the id (0, 0), as in the Rust ([ObjId::root()], [ElemId::head()]).
 
    Quirks mirrored (not repaired):
+   - [ObjId::is_root] is "counter == 0" while [ElemId::is_head] is "== (0, 0)": the reader can produce an object id
+     (0, a) with a <> 0, which the writer (and [Change::decode]) treat as the root: such an op does not re-encode to
+     itself ([wf_chopb] asks for the root to be (0, 0));
    - [ObjIdRange::new]: when the obj actor OR the obj counter column is empty the obj columns are not read at all;
    - a column missing from the chunk is an empty column; of duplicate columns the last one wins; columns of a group
      whose id is not 7 (and any other unknown column) are ignored;
@@ -72,7 +75,9 @@ Record chop := mkChop {
 
 Definition llen {A} (l : list A) : N := N.of_nat (length l).
 
-Definition is_zero_id (o : opid) : bool := (fst o =? 0) && (snd o =? 0).
+Definition is_zero_id (o : opid) : bool := (fst o =? 0) && (snd o =? 0).   (* [ElemId::is_head]: == HEAD *)
+(* [ObjId::is_root] looks at the COUNTER only: (0, a) is the root for every actor a *)
+Definition is_root_id (o : opid) : bool := fst o =? 0.
 
 (* ---------------------------------------------------------------- value metadata *)
 (* [ulebsize] / [lebsize]: 64 - leading_zeros = [N.size] *)
@@ -114,11 +119,11 @@ Definition rle_u64 (xs : list (option N)) : bytes := rle_encode uleb_enc N.eqb x
 Definition rle_str (xs : list (option bytes)) : bytes := rle_encode str_enc bytes_eqb xs.
 
 Definition col_obj_actor (ops : list chop) : bytes :=
-  rle_u64 (map (fun o => if is_zero_id (co_obj o) then None else Some (snd (co_obj o))) ops).
+  rle_u64 (map (fun o => if is_root_id (co_obj o) then None else Some (snd (co_obj o))) ops).
 Definition col_obj_ctr (ops : list chop) : bytes :=
   match col_obj_actor ops with
   | [] => []                                                           (* [if actor.is_empty() return Ok(None)] *)
-  | _ => rle_u64 (map (fun o => if is_zero_id (co_obj o) then None else Some (fst (co_obj o))) ops)
+  | _ => rle_u64 (map (fun o => if is_root_id (co_obj o) then None else Some (fst (co_obj o))) ops)
   end.
 Definition col_key_actor (ops : list chop) : bytes :=
   rle_u64 (map (fun o => match co_key o with
@@ -522,6 +527,7 @@ Definition wf_svalb (v : sval) : bool :=
    the reader is willing to allocate, and fewer than 2^63 ops *)
 Definition wf_chopb (o : chop) : bool :=
   wf_opidb (co_obj o)
+  && (negb (is_root_id (co_obj o)) || is_zero_id (co_obj o))        (* the root is written (0, 0) *)
   && match co_key o with
      | K_Prop s => wf_bytesb s && utf8_valid s && (lenN s <=? MAX_ALLOCATION)
      | K_Elem e => wf_opidb e
